@@ -46,7 +46,9 @@ def check_mesh(ctx, mesh, kind, tag):
     t = np.asarray(mesh.t)[:nvl]
     topo = T.Topology(t, rd.facets, rd.edges)
     if kind == "wedge" and wedge_start_vertex_mismatch(t, topo):
-        return check_wedge_shifted(ctx, mesh, topo, tag)
+        # (formerly a recorded finding with a restricted evaluation; the library's tables are start-vertex
+        # independent now, so these meshes get the full set of clauses)
+        ctx.reached("wedge-shifted-local-order")
     probs = T.validate_local_tables(rd)
     ctx.check("local-tables-are-true-faces", not probs, mech=f"local-table:{rd.__name__}", problems=probs)
 
